@@ -1,5 +1,5 @@
 (* C17 — IP wrapper frames by length; TCP transport returns whole APDUs for any chunking. *)
-From Dlms Require Import Base WrapperModel WrapperSpec WrapperProofs.
+From Dlms Require Import Base WrapperModel WrapperSpec WrapperProofs WrapperStream.
 
 (* the header is four big-endian 16-bit fields: version, source port, destination port, length *)
 Theorem C17_header_layout : forall src dst ln ver, src < 65536 -> dst < 65536 -> ln < 65536 -> ver < 65536 ->
@@ -45,5 +45,38 @@ Example C17_nonvacuous :
   = (Ok [104; 101; 108; 108; 111], ([0; 1], [])).
 Proof. split; [repeat constructor|]. vm_compute. reflexivity. Qed.
 
+(* any number of messages back to back on one TCP stream, read under any schedule: n calls of recv()
+   return exactly the n payloads, whole, in order, and leave exactly what follows them unread *)
+Theorem C17_recv_stream_any_schedule : forall ms tail sched,
+  Forall wmsg_ok ms -> sched_ok sched ->
+  exists sched', sched_ok sched' /\
+    tcp_recv_n (length ms) (wstream ms ++ tail, sched) = (map (fun m => Ok (wmsg_payload m)) ms, (tail, sched')).
+Proof. exact tcp_recv_stream_any_schedule. Qed.
+
+(* ... and after the first j of them exactly the remaining messages are still unread *)
+Theorem C17_recv_stream_prefix : forall ms1 ms2 tail sched,
+  Forall wmsg_ok ms1 -> sched_ok sched ->
+  exists sched', sched_ok sched' /\
+    tcp_recv_n (length ms1) (wstream (ms1 ++ ms2) ++ tail, sched)
+    = (map (fun m => Ok (wmsg_payload m)) ms1, (wstream ms2 ++ tail, sched')).
+Proof. exact tcp_recv_stream_prefix. Qed.
+
+(* a stream that ends inside its last message: the whole messages before it are returned, the call that
+   meets the end of the stream is an error - never a short APDU *)
+Theorem C17_recv_stream_eof : forall ms ver src dst ln partial,
+  Forall wmsg_ok ms -> src < 65536 -> dst < 65536 -> ver < 65536 -> ln < 65536 ->
+  (length partial < N.to_nat ln)%nat ->
+  exists e s', tcp_recv_n (length ms + 1) (wstream ms ++ std_header ver src dst ln ++ partial, [])
+               = (map (fun m => Ok (wmsg_payload m)) ms ++ [Err e], s') /\ e <> EFuel.
+Proof. exact tcp_recv_stream_eof. Qed.
+
+Example C17_stream_nonvacuous :
+  Forall wmsg_ok [(1, 1, 16, [104; 105]); (1, 16, 1, []); (1, 1, 16, [1; 2; 3])] /\
+  tcp_recv_n 3 (wstream [(1, 1, 16, [104; 105]); (1, 16, 1, []); (1, 1, 16, [1; 2; 3])] ++ [9], [3; 1; 7; 2; 1; 30]%nat)
+  = ([Ok [104; 105]; Ok []; Ok [1; 2; 3]], ([9], [])).
+Proof. exact wstream_nonvacuous. Qed.
+
 Print Assumptions C17_recv_any_schedule.
 Print Assumptions C17_wrapper_roundtrip.
+Print Assumptions C17_recv_stream_any_schedule.
+Print Assumptions C17_recv_stream_eof.
